@@ -197,8 +197,24 @@ def _one(F, adt, ident, R, required=True):
 
 
 def _butterfly_design_table(F, b, recipe_adt, R):
-    """design_butterfly_algorithm: {len literal -> Recipe variant}"""
+    """design_butterfly_algorithm: {len literal -> Recipe variant}. The `match len` may sit in the
+    function itself or in a private helper it forwards `len` to (`Recipe::butterfly(len)`)."""
     bi = find_switch_on_param(F, b, 2)
+    if bi is None:
+        for cbi, t in b.calls():
+            c = F.callee_of(t)
+            if c and c["local"]:
+                g = F.bodies.get(c.get("res", c["id"]))
+                if g is None or g.kind != "Fn" and g.kind != "AssocFn":
+                    continue
+                for k, a in enumerate(t["args"]):
+                    if b.root(a) == ("param", 2):
+                        gbi = find_switch_on_param(F, g, k + 1)
+                        if gbi is not None:
+                            b, bi = g, gbi
+                            break
+            if bi is not None:
+                break
     if bi is None:
         R.violation("table:%s:noswitch" % b.name, b.where(), "no `match len` found in %s" % b.name)
         return {}
@@ -333,9 +349,21 @@ def _check_sse_primes(F, R, res):
     R.metric("sse_prime_lens", len(lens))
     # every `match len` in construct_prime_butterfly (one per element type branch)
     nsw = 0
-    for bi, bb in enumerate(cons.blocks):
+    # the `match len` tables may live in construct_prime_butterfly itself or in per-type helpers it forwards `len` to
+    sites = [(cons, 1)]
+    for bi, t in cons.calls():
+        c = F.callee_of(t)
+        if c and c["local"]:
+            g = F.bodies.get(c.get("res", c["id"]))
+            if g is not None and g.kind == "Fn":
+                for k, a in enumerate(t["args"]):
+                    if cons.root(a) == ("param", 1):
+                        sites.append((g, k + 1))
+    outer_cons = cons
+    for cons, lenp in sites:
+      for bi, bb in enumerate(cons.blocks):
         t = bb["t"]
-        if t["k"] == "switch" and cons.root(t["o"]) == ("param", 1):
+        if t["k"] == "switch" and cons.root(t["o"]) == ("param", lenp):
             nsw += 1
             arm_list, other = arms(cons, bi)
             have = set()
@@ -358,6 +386,7 @@ def _check_sse_primes(F, R, res):
                             "prime_butterfly_lens() advertises %d but construct_prime_butterfly (type branch %d) has no arm for it (falls into the panic arm)" % (m, nsw))
             if not region_panics(F, cons, other) and cons.blocks[other]["t"]["k"] != "unreachable":
                 pass
+    cons = outer_cons
     if nsw < 2:
         R.violation("table:sse:prime:branches", cons.where(), "expected a `match len` per element type in construct_prime_butterfly, found %d" % nsw)
     R.metric("sse_prime_matches", nsw)
@@ -369,23 +398,41 @@ def _check_sse_primes(F, R, res):
         R.violation("anchor:FftPlannerSse::new", "src/sse/sse_planner.rs", "FftPlannerSse::new not found")
         return
     hand = None
-    for bi, si, n in new.iter_nodes():
-        if n["k"] == "=" and n["r"]["k"] in ("use", "ref"):
-            t = new.ty(n["p"][0])
-            if t["k"] == "array" and F.types[t["t"]]["s"] == "usize" and len(n["p"]) == 1:
-                vals = array_literal(F, new, {"p": n["p"]})
-                if vals:
-                    hand = vals
-        if n["k"] == "=" and n["r"]["k"] == "agg" and n["r"].get("ak") == "array":
-            vals = array_literal(F, new, {"p": n["p"]})
-            if vals:
-                hand = vals
-    if hand is None:
-        # the list may be a promoted constant
-        for idx in range(len(new.r.get("promoted", []))):
-            pv = new.promoted_value(idx)
-            if pv and pv.get("k") == "array":
-                hand = pv["vals"]
+    cands = []
+    scan = [new]
+    for bi, t in new.calls():
+        c = F.callee_of(t)
+        if c and c["local"]:
+            g = F.bodies.get(c.get("res", c["id"]))
+            if g is not None and g.kind == "Fn" and g is not lens_fn:
+                scan.append(g)
+    for fb in scan:
+        for bi, si, n in fb.iter_nodes():
+            ops = []
+            if n["k"] == "=":
+                r_ = n["r"]
+                for k in ("o", "a", "b"):
+                    if k in r_:
+                        ops.append(r_[k])
+                ops += r_.get("ops", [])
+                if r_["k"] == "agg" and r_.get("ak") == "array":
+                    vals = array_literal(F, fb, {"p": n["p"]})
+                    if vals:
+                        cands.append(vals)
+            elif n["k"] == "call":
+                ops += n["args"]
+            for o in ops:
+                if "c" in o:
+                    rr = fb.root(o)
+                    if rr[0] == "const" and rr[1].get("k") == "array" and rr[1]["vals"]:
+                        cands.append(list(rr[1]["vals"]))
+        for idx in range(len(fb.r.get("promoted", []))):
+            pv = fb.promoted_value(idx)
+            if pv and pv.get("k") == "array" and pv["vals"]:
+                cands.append(list(pv["vals"]))
+    cands = [c_ for c_ in cands if sorted(c_) != sorted(lens)]
+    if cands:
+        hand = max(cands, key=len)
     if hand is None:
         R.violation("table:sse:hand", new.where(), "cannot read the hand-written butterfly list in FftPlannerSse::new")
         return
@@ -674,7 +721,122 @@ def _guarded_by_is_butterfly(F, b, bi, operand):
     return False
 
 
+# --------------------------------------------------------------------------- direction selectors
+DIR_TY = "FftDirection"
+
+
+def _dir_variants(F):
+    return enum_variants(F, DIR_TY) or ["Forward", "Inverse"]
+
+
+def _dir_const(F, b, operand):
+    """Variant name if the operand is a constant FftDirection (through refs / promoteds)."""
+    r = b.root(operand)
+    if r[0] == "agg" and r[3]["r"].get("adt") == DIR_TY:
+        return r[3]["r"]["vname"]
+    if r[0] == "const":
+        s_ = str(r[1].get("s", ""))
+        for v in _dir_variants(F):
+            if s_.endswith(v):
+                return v
+    return None
+
+
+def direction_selectors(F, b):
+    """Every branch on an FftDirection value in b: [(block, selector operand, {variant: target block})].
+    Forms: `match d { Forward => .., Inverse => .. }` (switch on the discriminant) and
+    `if d == FftDirection::V { .. } else { .. }` (PartialEq::eq / ne, or a comparison of discriminants)."""
+    out = []
+    variants = _dir_variants(F)
+    for bi, bb in enumerate(b.blocks):
+        t = bb["t"]
+        if t["k"] != "switch":
+            continue
+        r = b.root(t["o"])
+        if r[0] == "other" and r[1] and r[1].get("k") == "=" and r[1]["r"]["k"] == "discr":
+            dl = r[1]["r"]["p"][0]
+            if b.tys(dl).replace("&", "").strip() == DIR_TY or b.tys(dl).endswith(DIR_TY):
+                targets = {}
+                for val, tgt in t["cases"]:
+                    if val < len(variants):
+                        targets[variants[val]] = tgt
+                rest = [v for v in variants if v not in targets]
+                if len(rest) == 1 and b.blocks[t["otherwise"]]["t"]["k"] != "unreachable":
+                    targets[rest[0]] = t["otherwise"]
+                out.append((bi, {"p": [dl]}, targets))
+        elif r[0] == "call":
+            c = F.callee_of(r[2])
+            if c and (c["p"].endswith("PartialEq::eq") or c["p"].endswith("PartialEq::ne")) and c["a"] and isinstance(c["a"][0], int) \
+                    and F.ts(c["a"][0]) == DIR_TY and len(r[2]["args"]) == 2:
+                a0, a1 = r[2]["args"]
+                v0, v1 = _dir_const(F, b, a0), _dir_const(F, b, a1)
+                sel, v = (a0, v1) if v1 is not None else (a1, v0) if v0 is not None else (None, None)
+                if sel is None or len(variants) != 2:
+                    continue
+                other = [x for x in variants if x != v][0]
+                eq = c["p"].endswith("::eq")
+                false_t = [tg for val, tg in t["cases"] if val == 0]
+                true_t = t["otherwise"]
+                if not false_t:
+                    continue
+                targets = {v: true_t, other: false_t[0]} if eq else {v: false_t[0], other: true_t}
+                out.append((bi, sel, targets))
+    return out
+
+
+def _self_fields_in(b, blocks, param=1):
+    touched = set()
+    for x in sorted(blocks):
+        nodes = list(b.blocks[x]["s"]) + [b.blocks[x]["t"]]
+        for n in nodes:
+            places = []
+            if n["k"] == "=":
+                r_ = n["r"]
+                if r_["k"] in ("ref", "rawptr"):
+                    places.append(r_["p"])
+                for k in ("o", "a", "b"):
+                    if k in r_ and "p" in r_[k]:
+                        places.append(r_[k]["p"])
+            elif n["k"] == "call":
+                for a in n["args"]:
+                    if "p" in a:
+                        places.append(a["p"])
+            for p_ in places:
+                if p_[0] == param:
+                    for e in p_[1:]:
+                        if isinstance(e, list) and e[0] == "f":
+                            touched.add(e[1])
+                            break
+    return touched
+
+
 # --------------------------------------------------------------------------- R-CACHE
+def _cache_table(F, b, depth=0):
+    """{variant: set(field index of self)} for a function selecting a map by a direction value,
+    directly or through a private helper (`map_for(direction)`). Also returns the selector source."""
+    sels = direction_selectors(F, b)
+    for bi, sel, targets in sels:
+        tab = {}
+        for v, tgt in targets.items():
+            tab[v] = _self_fields_in(b, region_of(b, tgt))
+        if any(tab.values()):
+            return tab, (b, sel)
+    if depth < 2:
+        for bi, t in b.calls():
+            c = F.callee_of(t)
+            if c and c["local"] and t["args"] and b.root(t["args"][0]) == ("param", 1):
+                g = F.bodies.get(c.get("res", c["id"]))
+                if g is None or g is b:
+                    continue
+                sub = _cache_table(F, g, depth + 1)
+                if sub:
+                    tab, (gb, gsel) = sub
+                    gr = gb.root(gsel)
+                    if gr[0] == "param" and gr[1] - 1 < len(t["args"]):
+                        return tab, (b, t["args"][gr[1] - 1])
+    return None
+
+
 def r_cache(F, cfg):
     R = Result("R-CACHE", "FftCache: accessors agree on direction -> map, and the key is derived from the stored instance")
     adt = "fft_cache::FftCache"
@@ -683,73 +845,38 @@ def r_cache(F, cfg):
         R.violation("anchor:FftCache", "src/fft_cache.rs", "FftCache not found")
         return R
     fields = [f["name"] for f in a["variants"][0]["fields"]]
-    dvars = enum_variants(F, "FftDirection")
-    maps = {}
+    dvars = _dir_variants(F)
+    tables = {}
     for ident in ("get", "contains_fft", "insert"):
         b = _one(F, adt, ident, R)
         if b is None:
             continue
-        # the switch on a direction value
-        sw = None
-        for bi, bb in enumerate(b.blocks):
-            t = bb["t"]
-            if t["k"] == "switch":
-                r = b.root(t["o"])
-                if r[0] == "other" and r[1] and r[1].get("k") == "=" and r[1]["r"]["k"] == "discr":
-                    dl = r[1]["r"]["p"][0]
-                    if b.tys(dl).endswith("FftDirection"):
-                        sw = (bi, dl)
-        if sw is None:
-            R.violation("cache:%s:noswitch" % ident, b.where(), "%s does not match on a direction" % b.name)
+        res = _cache_table(F, b)
+        if res is None:
+            R.violation("cache:%s:noswitch" % ident, b.where(), "%s does not select a map by a direction" % b.name)
             continue
-        bi, dl = sw
-        arm_list, other = arms(b, bi)
-        tab = {}
-        targets = {}
-        for vals, tgt in arm_list:
-            for v in vals:
-                targets[dvars[v]] = tgt
-        # a two-variant match lowers to one case + otherwise
-        rest = [d for d in dvars if d not in targets]
-        if len(rest) == 1 and b.blocks[other]["t"]["k"] != "unreachable":
-            targets[rest[0]] = other
-        for dname, tgt in targets.items():
-            reg = region_of(b, tgt)
-            touched = set()
-            for x in sorted(reg):
-                for s in b.blocks[x]["s"]:
-                    if s["k"] == "=" and s["r"]["k"] == "ref":
-                        p = s["r"]["p"]
-                        if p[0] == 1:
-                            for e in p[1:]:
-                                if isinstance(e, list) and e[0] == "f":
-                                    touched.add(fields[e[1]])
-            tab[dname] = touched
-        maps[ident] = tab
+        tab, (sb, sel) = res
+        tables[ident] = tab
         for dname in dvars:
-            want = dname.lower() + "_cache"
-            if tab.get(dname) != {want}:
-                R.violation("cache:%s:%s" % (ident, dname), b.where(), "%s: direction %s touches %s, expected {%s}" % (b.name, dname, sorted(tab.get(dname, [])), want))
-            else:
-                R.ok({"fn": b.name, "direction": dname, "map": want}, nontrivial=True)
-        # provenance of the selector and key
+            fs = tab.get(dname, set())
+            if len(fs) != 1:
+                R.violation("cache:%s:%s" % (ident, dname), b.where(), "%s: direction %s touches the maps %s (expected exactly one)" % (b.name, dname, sorted(fields[i] for i in fs)))
+        # provenance of the selector
         if ident == "insert":
-            r = b.root({"p": [dl]})
-            sel_ok = False
+            r = sb.root(sel)
             stored = None
             if r[0] == "call":
                 c = F.callee_of(r[2])
                 if c and c["p"] == "Direction::fft_direction":
-                    stored = _arc_root(F, b, r[2]["args"][0])
-                    sel_ok = stored is not None
-            if not sel_ok:
+                    stored = _arc_root(F, sb, r[2]["args"][0])
+            if stored is None:
                 R.violation("cache:insert:selector", b.where(), "FftCache::insert does not select the map by fft_direction() of the inserted instance")
             else:
                 R.ok({"insert_selector": "fft_direction() of the inserted Arc"}, nontrivial=True)
             nins = 0
             for bj, t in b.calls():
                 c = F.callee_of(t)
-                if c and c["p"].endswith("HashMap::<K, V, S, A>::insert") or (c and "HashMap" in c["p"] and c["p"].endswith("::insert")):
+                if c and "HashMap" in c["p"] and c["p"].endswith("::insert"):
                     nins += 1
                     kr = b.root(t["args"][1])
                     vr = _arc_root(F, b, t["args"][2])
@@ -763,11 +890,10 @@ def r_cache(F, cfg):
                         R.violation("cache:insert:key", b.where(t), "FftCache::insert files the instance under a key that is not len() of that same instance")
                     else:
                         R.ok({"insert_key": "len() of the inserted Arc", "value": "clone of parameter"}, nontrivial=True)
-            if nins != 2:
-                R.violation("cache:insert:count", b.where(), "expected one HashMap::insert per direction in FftCache::insert, found %d" % nins)
+            if nins < 1:
+                R.violation("cache:insert:count", b.where(), "no HashMap::insert found in FftCache::insert")
         else:
-            # get / contains_fft: selector is the direction parameter, key is the len parameter
-            if b.root({"p": [dl]}) != ("param", 3):
+            if sb.root(sel) != ("param", 3):
                 R.violation("cache:%s:selector" % ident, b.where(), "%s does not select the map by its direction parameter" % b.name)
             for bj, t in b.calls():
                 c = F.callee_of(t)
@@ -776,16 +902,31 @@ def r_cache(F, cfg):
                         R.violation("cache:%s:key" % ident, b.where(t), "%s looks up a key that is not its len parameter" % b.name)
                     else:
                         R.ok(None, nontrivial=True)
-    R.metric("cache_accessors", len(maps))
+    # the three accessors agree, and the two directions use different maps
+    if len(tables) == 3:
+        ref = tables["insert"]
+        for ident, tab in tables.items():
+            for dname in dvars:
+                if tab.get(dname) != ref.get(dname):
+                    R.violation("cache:%s:%s" % (ident, dname), "src/fft_cache.rs",
+                                "FftCache::%s uses map %s for direction %s but insert files %s instances in %s" % (
+                                    ident, sorted(fields[i] for i in tab.get(dname, [])), dname, dname, sorted(fields[i] for i in ref.get(dname, []))))
+                else:
+                    R.ok({"fn": "FftCache::" + ident, "direction": dname, "map": sorted(fields[i] for i in tab.get(dname, []))}, nontrivial=True)
+        if len(dvars) == 2 and ref.get(dvars[0]) == ref.get(dvars[1]):
+            R.violation("cache:insert:same-map", "src/fft_cache.rs", "both directions are filed in the same map")
+    R.metric("cache_accessors", len(tables))
     # planner look-ups: FftCache::get / contains_fft receive a direction that is the caller's direction parameter
     nl = 0
     for b in F.bodies.values():
         for bi, t in b.calls():
             c = F.callee_of(t)
             if c and c["local"] and c["p"].startswith("fft_cache::FftCache") and (c["p"].endswith("::get") or c["p"].endswith("::contains_fft")):
+                if "self_ty" in b.r and F.types[b.r["self_ty"]].get("p") == adt:
+                    continue  # FftCache's own helpers
                 nl += 1
                 r = b.root(t["args"][2])
-                if not (r[0] == "param" and b.tys(r[1]).endswith("FftDirection")):
+                if not (r[0] == "param" and b.tys(r[1]).endswith(DIR_TY)):
                     R.violation("cache:lookup:%s" % b.name, b.where(t), "%s queries the cache with a direction that is not its own direction parameter" % b.name)
                 else:
                     R.ok({"lookup_in": b.name, "direction": "parameter %d" % r[1]}, nontrivial=True, sample_cap=16)
@@ -811,7 +952,7 @@ def r_cache(F, cfg):
             if not (rr[0] == "field" and rr[1] == ("param", 1)):
                 continue
             fld = rr[2][-1][1] if rr[2] and rr[2][-1][0] == "f" else None
-            if fld is None or fld >= len(fnames) or fnames[fld] != "recipe_cache":
+            if fld is None or fld >= len(fnames) or "recipe" not in fnames[fld]:
                 continue
             nrc += 1
             lens = [i for i in range(2, b.argc + 1) if b.tys(i) == "usize"]
@@ -821,7 +962,6 @@ def r_cache(F, cfg):
             else:
                 R.violation("cache:recipe:%s:%s" % (b.name, m), b.where(t), "%s: recipe_cache.%s uses a key that is not the requested length parameter" % (b.name, m))
             if m == "insert":
-                # the value stored is the recipe designed for that same length in this function
                 vr = b.root(t["args"][2])
                 src = None
                 if vr[0] == "call":
@@ -831,7 +971,7 @@ def r_cache(F, cfg):
                 if vr[0] == "call":
                     cv = F.callee_of(vr[2])
                     if cv and cv["local"] and "design_" in cv["p"]:
-                        la = [a for a in vr[2]["args"] if b.root(a) == ("param", lens[0])] if lens else []
+                        la = [a_ for a_ in vr[2]["args"] if b.root(a_) == ("param", lens[0])] if lens else []
                         src = "designed" if la else "designed-for-other-length"
                 if src == "designed":
                     R.ok({"recipe_cache_value": "recipe designed for the key length"}, nontrivial=True)
@@ -872,12 +1012,26 @@ def _upper_bound_on_edges(F, b, bi, param):
         if not (r[0] == "other" and r[1] and r[1].get("k") == "=" and r[1]["r"]["k"] == "bin"):
             continue
         rv = r[1]["r"]
-        if rv["op"] not in ("Lt", "Le", "Gt", "Ge"):
+        if rv["op"] not in ("Lt", "Le", "Gt", "Ge", "Eq", "Ne"):
             continue
         a, c_ = b.root(rv["a"]), b.root(rv["b"])
         if not (a == ("param", param) and c_[0] == "const" and "v" in c_[1]):
             continue
         k = c_[1]["v"]
+        if rv["op"] in ("Eq", "Ne"):
+            false_t = [tgt for v, tgt in t["cases"] if v == 0]
+            true_t = t["otherwise"]
+            on_true = true_t in dom or true_t == bi
+            on_false = any((ft in dom or ft == bi) for ft in false_t)
+            if on_true == on_false:
+                continue
+            equal = on_true if rv["op"] == "Eq" else on_false
+            if equal:
+                lt = k + 1 if lt is None else min(lt, k + 1)
+                ge = k if ge is None else max(ge, k)
+            elif k == 0:
+                ge = 1 if ge is None else max(ge, 1)
+            continue
         false_t = [tgt for v, tgt in t["cases"] if v == 0]
         true_t = t["otherwise"]
         on_true = true_t in dom or true_t == bi
